@@ -64,9 +64,9 @@ NonZeroSeedVerbatim == last.op = "from_seed" /\ ~AllZero(last.seed) => last.gen 
 (* ---- C09 ---- *)
 Delivered(log) == FoldLeft(LAMBDA a, e : a + e[2], 0, log)
 AnyFailed(log) == \E i \in 1..Len(log) : ~log[i][1]
-LeadingZeroBlocks(s) == CHOOSE z \in 0..MaxDraws :
+LeadingZeroBlocks(s) == CHOOSE z \in 0..8 :
    /\ \A j \in 0..(z - 1) : AllZero(SrcTake([s EXCEPT !.pos = @ + j * SLen], SLen))
-   /\ (z = MaxDraws \/ ~AllZero(SrcTake([s EXCEPT !.pos = @ + z * SLen], SLen)))
+   /\ (z = 8 \/ ~AllZero(SrcTake([s EXCEPT !.pos = @ + z * SLen], SLen)))
 ErrIffSourceFailed ==
   last.op \in {"from_rng", "try_from_rng"} /\ last.gen # <<"loops">> =>
      /\ last.ok = ~AnyFailed(last.log)
